@@ -10,6 +10,7 @@ warnings.filterwarnings("ignore")
 import verif_c12_log as L
 
 import scenic
+from scenic.core.distributions import RejectionException
 from scenic.core.simulators import Simulation, Simulator
 from scenic.core.vectors import Vector
 
@@ -109,14 +110,28 @@ def main():
     results = []
     for job in payload["jobs"]:
         res = dict(id=job["id"])
+        regen = job.get("regen", False)      # requirements on the top-level scenario: the scene is sampled per run
         try:
+            L.SIM = None
+            L.TAB = job["runs"][0]["tab"] if (regen and job["runs"]) else []
             scenario = scenic.scenarioFromString(job["src"], mode2D=True)
-            scene, _ = scenario.generate(maxIterations=5)
+            if not regen:
+                scene, _ = scenario.generate(maxIterations=5)
         except Exception as e:
             res["compile_error"] = type(e).__name__ + ": " + str(e)[:300]
             results.append(res)
             continue
-        res["runs"] = [run_one(scene, run) for run in job["runs"]]
+        res["runs"] = []
+        for run in job["runs"]:
+            if regen:
+                L.SIM = None
+                L.TAB = run["tab"]
+                try:
+                    scene, _ = scenario.generate(maxIterations=1)
+                except RejectionException:
+                    res["runs"].append(dict(kind="sceneRejected", events=[], veneer_clean=True))
+                    continue
+            res["runs"].append(run_one(scene, run))
         results.append(res)
     print(json.dumps(dict(results=results)))
 
